@@ -26,6 +26,10 @@ WORDS = ["class", "def", "None", "True", "__init__", "__dict__", "_dict", "blank
          "", " ", "__", "1", "1st", "x y z", "müller", "total$", "$ref", "x²", "ﬁle", "a__b", "_", "-", "--", "a\tb"]
 
 
+# computed by the harness in the running interpreter, not taken from the library
+OWN_RESERVED = set(dir(object)) | set(keyword.kwlist) | {"_dict"}
+
+
 def all_code_points():
     return [cp for cp in range(0x110000) if not 0xD800 <= cp <= 0xDFFF]
 
@@ -37,7 +41,7 @@ def attr_problems(name, attr):
         out.append("not-identifier")
     elif unicodedata.normalize("NFKC", attr) != attr:
         out.append("nfkc-unstable")
-    if keyword.iskeyword(attr) or attr in RESERVED_PROPERTIES:
+    if keyword.iskeyword(attr) or attr in RESERVED_PROPERTIES or attr in OWN_RESERVED:
         out.append("reserved")
     if not out:
         try:
@@ -183,6 +187,47 @@ def check_title(title, out, stats):
         stats["title-" + problems[0].split(" ")[0]] = stats.get("title-" + problems[0].split(" ")[0], 0) + 1
 
 
+def check_shared_object(names, out, stats):
+    """one object schema *dict* reached twice in one parse (from a property and from `definitions`, as resolving a
+    `$ref` produces): its properties keep their JSON names, and it is one class"""
+    from statham.schema.constants import NotPassed
+    from statham.schema.parser import parse
+    from statham.serializers.orderer import get_object_classes
+    shared = {"type": "object", "title": "Item", "properties": {n: {"type": "integer"} for n in names}, "required": names[:1]}
+    doc = {"type": "object", "title": "Root", "properties": {"first": shared, "again": {"type": "array", "items": shared}}, "definitions": {"item": shared}}
+    case = {"shared_object": names}
+    out.note_case(case, True)
+    try:
+        elements = parse(core.copy.deepcopy(doc))
+    except Exception as exc:  # noqa: BLE001
+        stats["shared-parse-raised-" + type(exc).__name__] = stats.get("shared-parse-raised-" + type(exc).__name__, 0) + 1
+        return
+    classes, seen = [], set()
+    for c in get_object_classes(*elements):
+        if id(c) not in seen:
+            seen.add(id(c))
+            classes.append(c)
+    items = [c for c in classes if c.__name__.startswith("Item")]
+    if len(items) != 1:
+        out.failures.append({"case": case, "what": f"one object schema reached several times became {len(items)} classes: {[c.__name__ for c in items]}", "finding": None})
+        return
+    cls = items[0]
+    sources = sorted(p.source or a for a, p in cls.properties.items())
+    if len(set(names)) == len(names) and len(cls.properties) == len(names) and sources != sorted(names):
+        out.failures.append({"case": case, "what": f"JSON names {sorted(names)} became sources {sources}", "finding": None})
+        return
+    if len(cls.properties) == len(set(names)):
+        try:
+            inst = cls({n: 1 for n in names})
+        except Exception:  # noqa: BLE001
+            return
+        lost = [a for a in cls.properties if isinstance(getattr(inst, a, NotPassed()), NotPassed)]
+        if lost:
+            out.failures.append({"case": case, "what": f"built from its JSON names, attributes {lost} are not set", "finding": None})
+            return
+    stats["shared-object-ok"] = stats.get("shared-object-ok", 0) + 1
+
+
 def run(ctx, scale=1.0):
     rng = random.Random(ctx["seed"] + 12)
     out = Outcome()
@@ -203,13 +248,16 @@ def run(ctx, scale=1.0):
             chunk = [chr(cp) for cp in sweep[i:i + B]]
             check_names(drv, chunk + ["a" + c + "b" for c in chunk] + ["_" + c for c in chunk], out, stats, sweep=True)
         stats["code-points-swept"] = len(sweep)
-        names = list(WORDS)
+        names = list(WORDS) + sorted(OWN_RESERVED) + [w + "_" for w in sorted(OWN_RESERVED)][:40]
         for _ in range(int(1500 * scale)):
             names.append("".join(rng.choice(REPRESENTATIVES) for _ in range(rng.randint(2, 6))))
         check_names(drv, names, out, stats)
         for _ in range(int(300 * scale)):
             pool = WORDS + REPRESENTATIVES + ["a b", "a_b", "a-b", "x", "y"]
             check_siblings(rng.sample(pool, rng.choice([2, 3, 4])), out, stats)
+        hostile = ["first-name", "class", "total$", "a b", "x.y", "1st", "müller", "def", "__init__", "plain", "n"]
+        for _ in range(int(40 * scale)):
+            check_shared_object(rng.sample(hostile, rng.choice([1, 2, 3])), out, stats)
         check_siblings(["a b", "a_b"], out, stats)
         check_siblings(["", "blank"], out, stats)
         from harness.gen import SchemaGen
@@ -252,6 +300,8 @@ def replay_finding(finding):
             check_class_names(drv, w["schema"], out, stats)
         finally:
             drv.close()
+    elif "shared_object" in w:
+        check_shared_object(w["shared_object"], out, stats)
     elif "names" in w:
         check_siblings(w["names"], out, stats)
     elif "title" in w:
